@@ -59,6 +59,7 @@ class Unit:
         self.not_covered = []
         self.globals = []
         self.structs = []     # (name, [(ctype, field)]) abstraction structs declared by the unit
+        self.instantiate = []
         self.sercov = []      # (class name, {field: reason})
 
 
@@ -140,6 +141,8 @@ def parse(path):
             elif d == 'lib':
                 k, v = ln[1:].split(None, 1)[1].split(' = ')
                 u.lib[k.strip()] = v.strip()
+            elif d == 'instantiate':
+                u.instantiate += words[1:]
             elif d == 'struct':
                 body = ln[1:].split(None, 2)[2]
                 flds = []
